@@ -272,6 +272,9 @@ def run_kani(prop, tier, seed=0):
     files_meta, all_h = discover()
     tiers = ('quick',) if tier == 'quick' else ('quick', 'thorough')
     sel = [h for h in all_h if prop in h.props and h.tier in tiers]
+    if os.environ.get('VERIF_ONLY'):  # development aid: restrict to harnesses whose name contains one of the substrings
+        subs = os.environ['VERIF_ONLY'].split(',')
+        sel = [h for h in sel if any(x in h.name for x in subs)]
     kr = KaniRun()
     if not sel:
         return kr
